@@ -8,6 +8,12 @@
 //!  * `directed`  – two short scenarios for hand-overs that random conversations reach rarely.
 //!  * `value`     – random conversations on a value lane.
 //!  * `map`       – random conversations on a map lane.
+//!  * `faults-directed` – short scenarios in which one half of the link fails alone (the lane drops
+//!                  its reader of the runtime's output / closes its writer) and in which nobody is
+//!                  attached for longer than a finite `empty_timeout` while the write task is parked on
+//!                  a pending write, after which a consumer attaches.
+//!  * `faults-value`, `faults-map` – random conversations with a finite `empty_timeout`, virtual-time
+//!                  steps and the lane-side faults (alone and in the patterns above).
 
 mod oracle;
 mod peers;
@@ -60,7 +66,7 @@ fn run_script(cfg: &Config, script: &[Step], rng: &mut Rng, out: &mut CaseOut) {
     out.events += sum.frames;
     out.add("frames-observed", sum.frames);
     out.add("events-delivered-to-consumers", sum.events_delivered);
-    out.nontrivial = sum.consumers_linked >= 2 && sum.events_delivered >= 1;
+    out.nontrivial = (sum.consumers_linked >= 2 || (cfg.faults && sum.consumers_linked >= 1)) && sum.events_delivered >= 1;
     if out.verbose {
         eprintln!("{}", serde_json_pretty(&oracle::witness(cfg, script, &obs)));
     }
@@ -68,6 +74,7 @@ fn run_script(cfg: &Config, script: &[Step], rng: &mut Rng, out: &mut CaseOut) {
         "lane": cfg.kind.name(),
         "consumers": cfg.consumers.iter().map(|c| json!({"sync": c.sync, "keep_linked": c.keep, "cap_note": c.cap_note, "cap_cmd": c.cap_cmd})).collect::<Vec<_>>(),
         "socket_caps": [cfg.cap_sock_out, cfg.cap_sock_in],
+        "empty_timeout_ms": cfg.timeout_ms,
         "steps": script.len(),
         "end": cfg.end.name(),
         "frames": sum.frames,
@@ -235,6 +242,26 @@ fn random_part(s: &mut Session, name: &str, kind: LaneKind, cases: u64) {
     );
 }
 
+fn fault_part(s: &mut Session, name: &str, kind: LaneKind, cases: u64) {
+    s.part(
+        name,
+        "seeded conversation of <= 120 steps as in the parts `value` / `map`, with a finite empty_timeout (20 / 60 / 300 ms of virtual time), virtual-time steps (a third of the timeout ... three timeouts), lane-side faults (the lane drops its reader of the runtime's output and keeps its writer, alone or followed by commands with quiet points; the lane closes its writer and keeps reading) and the pattern `everybody leaves while a write is pending - events - the timeout passes - events - a new consumer attaches - events spaced by less than the timeout`; a socket too small for one request frame half of the time; the link may close before the end action: then every served consumer must have been told `unlinked`, a runtime whose link provably closed must have terminated, and the runtime must not stop by inactivity while it serves a consumer; non-trivial when >= 1 consumer was linked and >= 1 event was delivered; counters `fault/*`, `inactivity/*`; distinct by the global order of (observer, frame kind) receipts",
+        false,
+        cases,
+        |_i, rng, out| {
+            let (cfg, script) = {
+                let mut g = Gen::new(rng);
+                let cfg = g.fault_config(kind);
+                let script = g.script(&cfg, MAX_FAULT_OPS);
+                (cfg, script)
+            };
+            run_script(&cfg, &script, rng, out);
+        },
+    );
+}
+
+const MAX_FAULT_OPS: usize = 120;
+
 fn main() {
     let mut s = Session::new("dlrt");
     if s.args.extra_u64("selftest").unwrap_or(0) > 0 {
@@ -270,6 +297,22 @@ fn main() {
     random_part(&mut s, "value", LaneKind::Value, cases);
     let cases = s.args.budget(100_000, 2_000_000);
     random_part(&mut s, "map", LaneKind::Map, cases);
+
+    s.part(
+        "faults-directed",
+        "six short scenarios x lane kind x options of two consumers x 3 variants, empty_timeout 100 ms of virtual time: (1) the lane drops its reader of the runtime's output, its writer stays open, then two commands with a quiet point after each => the runtime must terminate and every consumer be told `unlinked`; (2) the lane closes its writer and keeps reading => the same; (3-5) the only consumer leaves while a write to a lane that is not reading is pending (socket of 4 bytes: the write task cannot time out), two events let the read task notice, the timeout passes, another event, a new consumer attaches, events follow spaced by a quarter of the timeout (3: write still pending; 4: the lane reads again and answers the newcomer's sync at once; 5: the newcomer's command channel closes and the lane reads again, two timeouts pass) => the newcomer gets every event in order / its `synced`, and the runtime does not stop while it listens; (6) everybody leaves and the runtime times out (or not quite); counters `fault/*`, `inactivity/*` say how often the branches were reached; distinct by the global order of receipts",
+        false,
+        script::FAULT_CASES,
+        |i, rng, out| {
+            let (cfg, script, name) = script::fault_case(i);
+            out.count(&format!("scenario-{name}"));
+            run_script(&cfg, &script, rng, out);
+        },
+    );
+    let cases = s.args.budget(60_000, 1_500_000);
+    fault_part(&mut s, "faults-value", LaneKind::Value, cases);
+    let cases = s.args.budget(60_000, 1_500_000);
+    fault_part(&mut s, "faults-map", LaneKind::Map, cases);
 
     s.finish()
 }
